@@ -568,3 +568,125 @@ func TestC09Concurrent(t *testing.T) {
 		})
 	})
 }
+
+// droppedCase: trees whose *SourceCode the caller dropped, used after a collection while other texts are parsed.
+type droppedCase struct {
+	Texts []string `json:"texts"`
+	Noise []string `json:"noise"`
+}
+
+// expressionOnly parses a text and returns the expression alone - all Resolve needs; the *SourceCode is
+// unreachable once the function has returned.
+//
+//go:noinline
+func expressionOnly(text string) formula.Expression {
+	src, err := formula.ParseSourceCode([]byte(text))
+	if err != nil {
+		return nil
+	}
+	return src.Expression
+}
+
+func checkDropped(c droppedCase) string {
+	// when a finalizer runs and what a pool still holds is a matter of timing: several attempts
+	for attempt := 0; attempt < 8; attempt++ {
+		if msg := checkDroppedAfter(c, 1+attempt%2); msg != "" {
+			return msg
+		}
+	}
+	return ""
+}
+
+func checkDroppedAfter(c droppedCase, gcs int) string {
+	data := func() map[string]interface{} {
+		return map[string]interface{}{"price": 3, "quantity": 4, "name": "widget", "tags": []interface{}{"a", "b"}, "m": map[string]interface{}{"k": 5}}
+	}
+	type shared struct {
+		text string
+		expr formula.Expression
+		want string
+	}
+	var trees []shared
+	for _, tx := range c.Texts {
+		expr := expressionOnly(tx)
+		if expr == nil {
+			return "HARNESS: " + tx
+		}
+		r := formula.NewRunner()
+		r.SetThis(data())
+		trees = append(trees, shared{tx, expr, obs.Eval(r, context.Background(), expr).String()})
+	}
+	// one collection and a pause: what a finalizer released is then in reach of the next parse (a second
+	// collection would already empty a sync.Pool again) - the second pass of the caller uses two
+	for i := 0; i < gcs; i++ {
+		runtime.GC()
+		time.Sleep(20 * time.Millisecond)
+	}
+	var mu sync.Mutex
+	msg := ""
+	var wg sync.WaitGroup
+	for g := 0; g < 8; g++ {
+		wg.Add(1)
+		go func(g int) {
+			defer wg.Done()
+			for round := 0; round < 40; round++ {
+				for _, nz := range c.Noise {
+					formula.ParseSourceCode([]byte(nz))
+				}
+				for _, tr := range trees {
+					r := formula.NewRunner()
+					r.SetThis(data())
+					if got := obs.Eval(r, context.Background(), tr.expr).String(); got != tr.want {
+						mu.Lock()
+						if msg == "" {
+							msg = fmt.Sprintf("%q was parsed, evaluated to %s, its *SourceCode was dropped (the expression kept); after a garbage collection and parses of other texts the same expression evaluates to %s", tr.text, tr.want, got)
+						}
+						mu.Unlock()
+						return
+					}
+				}
+				if round%8 == 0 {
+					runtime.GC()
+				}
+			}
+		}(g)
+	}
+	wg.Wait()
+	return msg
+}
+
+func init() {
+	h.RegisterReplay("c09-dropped", func(raw json.RawMessage) string {
+		c, err := h.Decode[droppedCase](raw)
+		if err != nil {
+			return "bad replay: " + err.Error()
+		}
+		return checkDropped(c)
+	})
+}
+
+// TestC09DroppedSource: a parsed expression is immutable data that stands on its own - callers keep
+// source.Expression (the suite itself does) and let the *SourceCode go.
+func TestC09DroppedSource(t *testing.T) {
+	if os.Getenv("VERIF_CHILD") != "" {
+		return
+	}
+	if i, _ := h.Shard(); i != 0 {
+		return
+	}
+	run := h.Begin("C09", "dropped-source", "enumerated: 3 sets of formulas parsed once, only their Expression kept; after garbage collections 8 goroutines parse other texts of the same lengths and evaluate the shared expressions 40 times each on runners of their own; oracle: the result of the first evaluation, every time; every case non-trivial")
+	defer run.End(t)
+	cases := []droppedCase{
+		{Texts: []string{"price * quantity + 100", "name + '-' + len(tags)", "[price, quantity, m.k]"}, Noise: []string{"alpha - beta / 3 + gamma", "zzzzz + '#' + len(yyyy)", "[aaaaa, bbbbbbbb, c.d]"}},
+		{Texts: []string{"price", "12345.678 + price", "m.k ?? 'none'", "$t = quantity, $t * $t"}, Noise: []string{"other", "99999.999 + other", "q.z ?? 'xxxx'", "$u = something, $u + $u"}},
+		{Texts: []string{"upper(name) + lower('ABC') + left(name, 3)", "(price > 2 ? quantity : 0) + max(price, quantity, 1e3)"}, Noise: []string{"lower(eman) + upper('xyz') + right(eman, 2)", "(ecirp < 9 ? ytitnauq : 1) + min(ecirp, ytitnauq, 2e5)"}},
+	}
+	for _, c := range cases {
+		run.Count(true, "set")
+		run.Sample("set", strings.Join(c.Texts, " ; "))
+		if msg := checkDropped(c); msg != "" {
+			run.Fail("c09-dropped", c, msg)
+		}
+	}
+	run.Exhaustive()
+}
